@@ -597,7 +597,7 @@ Definition lift_add (c : cstate) (r : tres (tstate * option id)) : tres (cstate 
 Definition exec (l : tlang) (c : cstate) (o : op) : tres (cstate * bool) :=
   let t := ts c in
   let h := heap_of t in
-  let fuel := fuel_of t in
+  let fuel := S (fuel_of t) in
   match o with
   | OpAddElt p tag ats =>
     if parent_ok h p then lift_add c (add_elt_with_attrs fuel t p tag ats) else TOk (c, false)
